@@ -48,8 +48,14 @@ def _mk(order, ids, types, req):
 
 
 class _FakeTxn(Transaction):
-    def __init__(self, table_schema):
+    def __init__(self, table_schema, dfm=None):
+        import types
         self._ts = table_schema
+        if dfm is None:
+            dfm = DataFileManager.__new__(DataFileManager)
+            dfm._arrow_schema_cache = {}
+        # the parts of a real handle that validation code may legitimately touch
+        self.file_manager = types.SimpleNamespace(data_file_manager=dfm)
 
     def _resolve_table_schema(self):
         return self._ts
@@ -74,16 +80,20 @@ def schema_arg(perm: int, i0: int, i1: int, t0: int, t1: int, r0: int, r1: int, 
     elif extra == 2:
         order = order[:1]  # a missing field
     arg = _mk(order, [i0, i1, 9], [t0, t1, 0], [r0, r1, 0])
-    tx = _FakeTxn(table)
+    dfm = DataFileManager.__new__(DataFileManager)
+    dfm._arrow_schema_cache = {}
+    ref = DataFileManager.__new__(DataFileManager)
+    ref._arrow_schema_cache = {}
+    tbl_arrow = ref.create_arrow_schema(table)
+    if not FRESH:
+        dfm.create_arrow_schema(table)  # a reused handle: cache primed with the table schema
+    tx = _FakeTxn(table, dfm)
     try:
         tx._validate_schema_against_table(arg)
     except ValueError:
-        return True  # rejected: fine
-    dfm = DataFileManager.__new__(DataFileManager)
-    dfm._arrow_schema_cache = {}
-    tbl_arrow = dfm.create_arrow_schema(table)
-    if FRESH:
-        dfm._arrow_schema_cache = {}  # a fresh handle builds the Arrow schema from the ARGUMENT
+        # rejected: fine - but a rejection must leave no trace in the handle either: what the handle would now write
+        # for the TABLE's schema id is still the table's Arrow schema
+        return dfm.create_arrow_schema(table).equals(tbl_arrow)
     arg_arrow = dfm.create_arrow_schema(arg)
     if not arg_arrow.equals(tbl_arrow):
         return False  # files written with it make every later scan fail in concat_tables
@@ -101,7 +111,7 @@ def schema_arg__signature(perm, i0, i1, t0, t1, r0, r1, extra):
         return "schema-arg:reordered-accepted"
     if (i0, i1) != (1, 2):
         return "schema-arg:renumbered-ids-accepted"
-    return "schema-arg:other"
+    return "schema-arg:other-or-rejection-left-trace"
 
 
 def records_strict(k0: int, k1: int, v0: int, v1: int, n0: bool, n1: bool, nkeys: int) -> bool:
@@ -199,6 +209,30 @@ def _same(supplied, got, col, typ):
     return got == supplied and type(got) is type(supplied)
 
 
+def nan_batch(sp):
+    """An accepted batch mixing NaN with finite values in a float column: filtered scans (every operator) still return what the
+    unfiltered rows say (no accepted append can make later scans mis-filter)."""
+    from vf.oracles.sql3v import filter_value, matches
+    S3 = Schema(schema_id=1, fields=[{"id": 1, "name": "a", "type": "long", "required": True}, {"id": 2, "name": "x", "type": "double", "required": False}])
+    with Env(sp, rig="L", clock="tick") as e:
+        t = e.table(schema=S3)
+        nan = float("nan")
+        batches = [[{"a": 1, "x": nan}, {"a": 2, "x": 0.5}], [{"a": 3, "x": 0.5}, {"a": 4, "x": 0.5}], [{"a": 5, "x": nan}], [{"a": 6, "x": 7.0}, {"a": 7, "x": nan}, {"a": 8, "x": 9.0}]]
+        for b in batches:
+            t.append_records(b)
+        rows = [r for b in batches for r in b]
+        ops = ["==", "!=", "<", "<=", ">", ">=", "in", "not_in", "is_null", "is_not_null"]
+        op = ops[sp.choose(len(ops), name="op")]
+        lit = [0.5, 7.0, 8.0][sp.choose(3, name="literal")]
+        val = [lit] if op in ("in", "not_in") else lit
+        exp = sorted(r["a"] for r in rows if matches(op, r["x"], val))
+        got = sorted(r["a"] for r in e.table().scan(filter={"x": filter_value(op, val)}))
+        sp.note("filter", f"x {op} {val}")
+        sp.reach("ran")
+        sp.require(got == exp, f"after accepted appends mixing NaN and finite values, scan(x {op} {val}) returns {got}, the rows say {exp}",
+                   {"sig": f"accepted-misfilter:nan-batch:{op}"})
+
+
 def append_outcome(sp, reuse=False, records="ok"):
     with Env(sp, rig="L", clock="tick") as e:
         w = e.world
@@ -231,6 +265,16 @@ def append_outcome(sp, reuse=False, records="ok"):
                        f"{tag}: the append raised {type(raised).__name__} but left a trace (snapshot list / reachable files changed)", {"sig": f"rejected-left-trace:{variant}"})
             rows = sorted(r["a"] for r in e.table().scan())
             sp.require(rows == [1000], f"{tag}: the append raised but the table content is {rows}", {"sig": f"rejected-content-changed:{variant}"})
+            # ... and no trace in the HANDLE: an ordinary append through it afterwards is stored correctly and scans keep working
+            try:
+                t.append_records([{"a": 7, "b": "seven", "f": 2.75, "d": None}])
+                back = sorted((r["a"], r["b"], r["f"]) for r in e.table().scan())
+            except Exception as ex:  # noqa
+                sp.require(False, f"{tag}: after the REJECTED append, an ordinary append through the same handle / a scan fails: "
+                           f"{type(ex).__name__}: {str(ex)[:100]}", {"sig": f"rejected-poisoned-handle:{variant}"})
+                return
+            sp.require(back == [(7, "seven", 2.75), (1000, "one", 1.0)], f"{tag}: after the rejected append, a later ordinary append reads back as {back}",
+                       {"sig": f"rejected-poisoned-handle:{variant}"})
             return
         # accepted: later scans work and return every row exactly as supplied
         try:
@@ -354,6 +398,8 @@ def obligations(tier):
             obs.append(Ob(f"c.append.{'reused' if reuse else 'fresh'}.{rk}", "vf.props.c11:append_outcome", {"reuse": reuse, "records": rk, "_must_reach": ["ran"]},
                           timeout=T, bounds=f"every schema-argument variant ({len(SCHEMA_VARIANTS)}) x record class '{rk}' x {'reused' if reuse else 'fresh'} handle",
                           weight=3))
+    obs.append(Ob("c.nan_batch", "vf.props.c11:nan_batch", {"_must_reach": ["ran"]}, timeout=T,
+                  bounds="accepted batches mixing NaN and finite doubles; 10 operators x 3 literals on filtered scans", weight=2))
     obs.append(Ob("d.append_files", "vf.props.c11:append_file_outcome", {"_must_reach": ["ran"]}, timeout=T,
                   bounds=f"pre-built parquet file with each footer-schema deviation ({len(FILE_VARIANTS)})", weight=3))
     return obs
